@@ -105,7 +105,8 @@ def run_property(plugin, tier, seed, replay=None, no_build=False):
         extra = []
         if not replay and hasattr(plugin, "EXTRA_RUNS"):
             built = {}
-            for (cmd, area, extract_v, tag, argv) in plugin.EXTRA_RUNS(tier, seed):
+            for ent in plugin.EXTRA_RUNS(tier, seed):
+                (cmd, area, extract_v, tag, argv), keep = ent[:5], (ent[5] if len(ent) > 5 else None)
                 if cmd not in built:
                     d2, g2 = V.go_build(cmd)
                     m2 = V.ocaml_build(area, extract_v) if d2 is not None else None
@@ -114,15 +115,16 @@ def run_property(plugin, tier, seed, replay=None, no_build=False):
                         broken.append("correspondence %s (driver does not build against the repository)" % cmd)
                 d2, m2 = built[cmd]
                 if d2 is not None:
-                    extra.append((tag, argv, d2, m2))
+                    extra.append((tag, argv, d2, m2, keep))
         def do(r):
-            if len(r) == 4:
-                tag, argv, d2, m2 = r
+            if len(r) == 5:
+                tag, argv, d2, m2, keep = r
                 res = V.run_pair(d2, m2, argv, "%s-%s" % (pid, tag), timeout=getattr(plugin, "RUN_TIMEOUT", 1500))
                 res["_driver"], res["_model"], res["_extra"] = d2, m2, True
+                # of the other driver's monitor lines only those written for THIS property (tag `keep`) count
                 for c in res["cases"]:
-                    c.viol = []
-                res["viol"] = []
+                    c.viol = [v for v in c.viol if keep and v.startswith(keep + " ")]
+                res["viol"] = [i for i, c in enumerate(res["cases"]) if c.viol]
                 return res
             tag, argv = r
             return V.run_pair(driver, model if not getattr(plugin, "NO_MODEL_RUNS", ()) or tag.split("-")[0] not in plugin.NO_MODEL_RUNS else None,
@@ -132,8 +134,18 @@ def run_property(plugin, tier, seed, replay=None, no_build=False):
         tag = getattr(plugin, "VIOL_TAG", None)
         if tag:   # a driver shared by several properties tags its monitor lines; keep this property's
             for r in results:
+                if r.get("_extra"):
+                    continue
                 for c in r["cases"]:
                     c.viol = [v for v in c.viol if v.startswith(tag + " ")]
+                r["viol"] = [i for i, c in enumerate(r["cases"]) if c.viol]
+        excl = getattr(plugin, "VIOL_EXCLUDE", ())
+        if excl:  # monitor lines the driver writes for another property
+            for r in results:
+                if r.get("_extra"):
+                    continue
+                for c in r["cases"]:
+                    c.viol = [v for v in c.viol if not v.startswith(tuple(x + " " for x in excl))]
                 r["viol"] = [i for i, c in enumerate(r["cases"]) if c.viol]
 
     known = [k for k in V.load_known() if k.get("property") == pid and k.get("status") == "known"]
@@ -172,7 +184,7 @@ def run_property(plugin, tier, seed, replay=None, no_build=False):
                 small = None
                 if not getattr(plugin, "NO_MINIMISE", False):
                     try:
-                        small = V.minimise(driver, None, c, lambda rr: bool(rr["viol"]))
+                        small = V.minimise(r.get("_driver", driver), None, c, lambda rr: bool(rr["viol"]))
                     except Exception:
                         small = None
                 cc = small["cases"][small["viol"][0]] if small else c
@@ -180,7 +192,8 @@ def run_property(plugin, tier, seed, replay=None, no_build=False):
                 path = V.write_replay(pid, seed, k, cc, {
                     "property": pid, "kind": "monitor violation on the implementation",
                     "what": "; ".join(cc.viol[:3]), "run": r["tag"], "argv": " ".join(r["argv"]),
-                    "replay_with": "bin/check %s --replay <this file>" % pid})
+                    "replay_with": ("%s replay <this file>   (the driver of this extra run)" % os.path.relpath(r["_driver"], V.ROOT))
+                                   if r.get("_extra") else "bin/check %s --replay <this file>" % pid})
                 violations.append((path, cc.viol[0], False))
         for (i, d, mobs) in r["mismatch"]:
             if i in r["viol"]:
